@@ -91,7 +91,8 @@ def decoys(like=None):
 
 
 def _concrete(coords):
-    return all(isinstance(c, torch.Tensor) for c in coords)
+    # the extra phases re-evaluate on shifted / refilled copies of the coordinates: only for ordinary floating-point tensors
+    return all(isinstance(c, torch.Tensor) and c.is_floating_point() for c in coords)
 
 
 def _fresh(c, shift):
